@@ -25,7 +25,7 @@ RULE = ("Hypothesis: trees of VCALENDAR/VEVENT/VTODO/VJOURNAL/VFREEBUSY/VTIMEZON
         "multi-valued name; distinct by hash.")
 ASSUMPTIONS = ["texts contain no backslash and no literal %2C/%3A/%3B/%5C (RC-B region is decided in C05/C07/C08)",
                "RESOURCES is single-valued TEXT in this library's data model"]
-REQUIRED_CLASSES = ["kind:dates-date", "kind:periods", "kind:zoned", "kind:date", "kind:utc-trigger", "multi-valued", "setter", "nested", "extra-params"]
+REQUIRED_CLASSES = ["kind:dates-date", "kind:periods", "kind:zoned", "kind:date", "kind:utc-trigger", "multi-valued", "setter", "nested", "extra-params", "list-valued-add"]
 
 EXPECT_CLASS = {"text": "vText", "int": "vInt", "uri": "vUri", "caladdr": "vCalAddress", "datetime": "vDDDTypes", "date": "vDDDTypes",
                 "utc": "vDDDTypes", "td": "vDDDTypes", "period": "vPeriod", "recur": "vRecur", "geo": "vGeo", "offset": "vUTCOffset",
@@ -316,6 +316,8 @@ def info(case):
                 special = True
             if len(p) > 2 and p[2]:
                 classes.append("extra-params")
+    if any(len(p) > 3 and p[3] and p[3].get("join") for n in nodes for p in n["p"]):
+        classes.append("list-valued-add")
     if case.get("setters"):
         classes.append("setter")
     if len(nodes) > 1:
@@ -393,7 +395,36 @@ def cases(draw):
                          "trigger": st.one_of(V.s_td, V.s_utc), "int": st.integers(0, 9).map(lambda x: {"k": "int", "v": x}), "naive": V.s_naive,
                          "offset": T.s_value("offset")}[kind])
             setters.append([i, attr, spec])
+    tree = _with_list_adds(draw, tree)
     return {"provider": draw(st.sampled_from(["zoneinfo", "pytz"])), "tree": tree, "setters": setters}
+
+
+_JOINABLE = {"text", "uri", "caladdr", "naive", "utc", "zoned", "date", "td", "int"}
+
+
+def _with_list_adds(draw, tree):
+    """some repeated properties are supplied through one add(name, [v1, v2]) call (after, or instead of, a scalar add)"""
+    t = dict(tree)
+    props = [list(p) for p in tree["p"]]
+    cand = [p for p in props if p[1]["k"] in _JOINABLE and p[0].upper() not in ("RDATE", "EXDATE", "CATEGORIES") and not (len(p) > 2 and p[2])
+            and p[0].upper() in ("COMMENT", "ATTENDEE", "CONTACT", "RELATED-TO", "RESOURCES", "ATTACH", "DESCRIPTION", "X-MULTI", "REQUEST-STATUS", "EXRULE") or p[0].upper().startswith("X-")]
+    cand = [p for p in cand if p[1]["k"] in _JOINABLE and not (len(p) > 2 and p[2])]
+    if cand and draw(st.integers(0, 2)) == 0:
+        src = draw(st.sampled_from(cand))
+        for _ in range(draw(st.integers(1, 2))):
+            props.append([src[0], src[1]])
+    seen = {}
+    for p in props:
+        key = p[0].upper()
+        if key in seen and p[1]["k"] in _JOINABLE and key not in ("RDATE", "EXDATE", "CATEGORIES") and not (len(p) > 2 and p[2]) and seen[key] and draw(st.booleans()):
+            while len(p) < 3:
+                p.append(None)
+            p[2] = None
+            p.append({"join": True})
+        seen[key] = seen.get(key, True) and not (len(p) > 2 and p[2])
+    t["p"] = props
+    t["s"] = [_with_list_adds(draw, x) for x in tree["s"]]
+    return t
 
 
 _CANON = {
